@@ -144,7 +144,7 @@ def e2_drain(ctx, rep):
     variants = [v["name"] for v in eff["variants"]]
     call = ("call", (body.path, s.bb), s.ck)
     item = call if s.ck == "std::vec::Vec::remove" or s.ck == "std::vec::Vec::swap_remove" else ("vfield", call, "Some", 0)
-    pe = ctx.paths(body, start_bb=s.bb, stop_blocks=(h,), max_visits=1)
+    pe = ctx.paths(body, start_bb=s.bb, stop_blocks=(h,), max_visits=1, inline=True)
     rep.stats["paths"] += len(pe.paths)
     seen = set()
     for p in pe.paths:
